@@ -22,7 +22,7 @@ type c08Case struct {
 	All       scanOut   `json:"all"`
 	Froms     []scanOut `json:"froms"`
 	Ranges    []scanOut `json:"ranges"`
-	Compact   scanOut   `json:"compact"`   // MergeCompact + ScanReduceLatestWins, table read back
+	Compact   scanOut   `json:"compact"`    // MergeCompact + ScanReduceLatestWins, table read back
 	CompactST scanOut   `json:"compact_st"` // ... SkipTombstones
 	CompErr   string    `json:"comp_err,omitempty"`
 	CompSTErr string    `json:"comp_st_err,omitempty"`
@@ -32,7 +32,9 @@ type c08Case struct {
 	Fatal     string    `json:"fatal,omitempty"`
 }
 
-func defaultTblOpts() tblOpts { return tblOpts{IndexComp: 0, DataComp: 2, BloomN: 100, BloomP: 0.01, WBuf: 4096} }
+func defaultTblOpts() tblOpts {
+	return tblOpts{IndexComp: 0, DataComp: 2, BloomN: 100, BloomP: 0.01, WBuf: 4096}
+}
 
 func (c *c08Case) Exec() {
 	defer func() {
@@ -385,8 +387,8 @@ func genC08(r *rand.Rand, tier string) []Case {
 func init() {
 	register(&Prop{
 		ID: "C08", Num: 8,
-		Gen: genC08,
-		New: func() Case { return &c08Case{} },
+		Gen:  genC08,
+		New:  func() Case { return &c08Case{} },
 		Rule: "lists of 1..6 (thorough 12) real tables over a shared key universe (incl. the empty key in a third of the cases, keys that are prefixes of each other, marker bytes), values nil (tombstone) / empty / live, empty tables; stacked reader Get/Contains/Scan/ScanStartingAt/ScanRange, MergeCompact with both reductions into a real writer (read back), plain Merge for disjoint inputs. Non-trivial: >=2 non-empty tables.",
 	})
 	_ = errors.New
